@@ -70,6 +70,16 @@ type Contract struct {
 	File        string
 	InlineCalls map[string]int // callee name -> unroll bound (0: callee loops need contracts)
 	AlsoModifies bool
+	Stale       string // non-empty: the contract no longer matches the code (function gone, clause does not type-check)
+}
+
+// TypeCheck is a data-structure contract on a type's method set.
+type TypeCheck struct {
+	Pkg     *packages.Package
+	Type    string
+	Methods []string
+	Props   []string
+	File    string
 }
 
 type rawClause struct {
@@ -113,6 +123,8 @@ type World struct {
 	ghostGlobals map[string]bool
 	errs        []string
 	instrRank   map[ssa.Instruction]int
+	typeChecks  []*TypeCheck
+	stale       []string
 }
 
 var leafPkgs = []string{"encoding/binary", "math/bits"}
@@ -194,11 +206,11 @@ func (w *World) globalFor(v *types.Var) *ssa.Global {
 }
 
 func (w *World) contractFor(fn *ssa.Function) *Contract {
-	if c, ok := w.contracts[fn]; ok {
+	if c, ok := w.contracts[fn]; ok && c.Stale == "" {
 		return c
 	}
 	if o := fn.Origin(); o != nil {
-		if c, ok := w.contracts[o]; ok {
+		if c, ok := w.contracts[o]; ok && c.Stale == "" {
 			return c
 		}
 	}
@@ -447,7 +459,7 @@ func (w *World) cellFor(fn *ssa.Function, v *types.Var) *ssa.Alloc {
 
 // ---- contract files
 
-var kwRe = regexp.MustCompile(`^(also_modifies|inline_call|func|extern|lemma|requires|ensures|modifies|invariant|decreases|loop|nopanic|pure|inline|opaque|trusted|property|ghost_set|at|const_global|ghost_global|may_panic)\b`)
+var kwRe = regexp.MustCompile(`^(type_no_method|also_modifies|inline_call|func|extern|lemma|requires|ensures|modifies|invariant|decreases|loop|nopanic|pure|inline|opaque|trusted|property|ghost_set|at|const_global|ghost_global|may_panic)\b`)
 
 func (w *World) parseContracts(p *packages.Package) error {
 	for i, f := range p.Syntax {
@@ -479,6 +491,24 @@ func (w *World) parseContracts(p *packages.Package) error {
 				}
 				rest := strings.TrimSpace(line[len(m):])
 				switch m {
+				case "type_no_method":
+					// type_no_method <Type> <Method>... [property Cxx ...]: the method set of *Type must not contain them
+					f := strings.Fields(rest)
+					tc := &TypeCheck{Pkg: p, File: where}
+					for i := 0; i < len(f); i++ {
+						if f[i] == "property" {
+							tc.Props = f[i+1:]
+							break
+						}
+						if i == 0 {
+							tc.Type = f[0]
+						} else {
+							tc.Methods = append(tc.Methods, f[i])
+						}
+					}
+					w.typeChecks = append(w.typeChecks, tc)
+					last = nil
+					continue
 				case "const_global":
 					w.constGlobals[p.Types.Name()+"."+rest] = true
 					last = nil
@@ -503,7 +533,10 @@ func (w *World) parseContracts(p *packages.Package) error {
 						cur.Key = strings.TrimSpace(parts[1])
 					}
 					if err := w.bindContract(p, cur, where); err != nil {
-						return err
+						// the function the contract names no longer exists: remember it, keep loading the rest
+						w.stale = append(w.stale, err.Error())
+						cur.Stale = err.Error()
+						cur.Fn = nil
 					}
 					last = nil
 					continue
@@ -569,8 +602,12 @@ func (w *World) parseContracts(p *packages.Package) error {
 		if c.pkg != p {
 			continue
 		}
+		if c.Fn == nil {
+			continue
+		}
 		if err := w.elaborate(c); err != nil {
-			return err
+			c.Stale = err.Error()
+			w.stale = append(w.stale, err.Error())
 		}
 	}
 	return nil
@@ -1082,4 +1119,37 @@ func (w *World) globalInitNonNil(g *ssa.Global) bool {
 		}
 	}
 	return false
+}
+
+// checkTypes evaluates the method-set contracts of a property.
+func (w *World) checkTypes(prop string) []*Obligation {
+	var out []*Obligation
+	for _, tc := range w.typeChecks {
+		has := false
+		for _, p := range tc.Props {
+			if p == prop {
+				has = true
+			}
+		}
+		if !has {
+			continue
+		}
+		obj := tc.Pkg.Types.Scope().Lookup(tc.Type)
+		for _, m := range tc.Methods {
+			o := &Obligation{Name: tc.Pkg.Types.Name() + "." + tc.Type + "#methodset." + m, Kind: "methodset." + m, Fn: tc.Pkg.Types.Name() + "." + tc.Type, Pos: tc.File, Goal: "method set of *" + tc.Type + " does not contain " + m}
+			if obj == nil {
+				o.Status, o.Model = "stale", "type "+tc.Type+" not found"
+			} else {
+				ms := types.NewMethodSet(types.NewPointer(obj.Type()))
+				if sel := ms.Lookup(tc.Pkg.Types, m); sel != nil || ms.Lookup(nil, m) != nil {
+					o.Status, o.Solver = "sat", "go/types"
+					o.Model = "the method set of *" + tc.Type + " contains " + m + " (declared or promoted from an embedded field): callers that type-assert for it bypass the contract-carrying method"
+				} else {
+					o.Status, o.Solver, o.Trivial = "unsat", "go/types", true
+				}
+			}
+			out = append(out, o)
+		}
+	}
+	return out
 }
